@@ -695,7 +695,10 @@ class DAGRunConcurrentManager(DAGRunManagerLike):
             self._node_storage.set_node_result(node_id, result)
 
             # TODO: Needs to reorganize saving policy for artifact storage
-            await self.ctx.save_node_result(node_id, result)
+            # A request for the next iteration of a recurrent subgraph and a failure kept inside a OneOf subgraph
+            # are not the node's artifacts: a write-once store would refuse the real value afterwards.
+            if not isinstance(result, (Recurrent, BaseException)):
+                await self.ctx.save_node_result(node_id, result)
 
         finally:
             if not to_unlock_descendants:
